@@ -114,6 +114,33 @@ def method_body(src, qualified_regex):
     return block_after(src, m.end() - 1 if src[m.end() - 1] == "{" else m.end())
 
 
+
+def control_context(body, pos):
+    """heads of the brace blocks enclosing position pos in a function body
+    ('' for a plain block), outermost first"""
+    stack = []
+    start = 0
+    for i, ch in enumerate(body[:pos]):
+        if ch == "{":
+            stack.append(" ".join(body[start:i].split()))
+            start = i + 1
+        elif ch == "}":
+            if stack:
+                stack.pop()
+            start = i + 1
+        elif ch == ";":
+            start = i + 1
+    return stack
+
+
+def returns_before(body, pos):
+    """for every `return` statement textually before pos: the list of enclosing
+    block heads (the guard conditions under which it is taken)"""
+    out = []
+    for m in re.finditer(r"\breturn\b", body[:pos]):
+        out.append(control_context(body, m.start()))
+    return out
+
 # --------------------------------------------------------------------------
 
 def generate(repo=REPO):
@@ -392,6 +419,52 @@ def generate(repo=REPO):
         check("CoreTrackView::%s uses states_.%s and this->track_slot_id()" % (view, member),
               b is not None and ("states_.%s" % member) in b and "this->track_slot_id()" in b)
 
+    # ---- pre-step clearing of the per-step temporaries, on EVERY path a track that is
+    #      still processed later can take (errored tracks go on to the tracking cut,
+    #      the step gather and LocateAlive/ProcessSecondaries) -----------------------
+    pre_src = read(repo, "celeritas/phys/detail/PreStepExecutor.hh")
+    pre_body = method_body(pre_src, r"PreStepExecutor::operator\(\)\s*\(\s*celeritas::CoreTrackView const&\s*\w+\s*\)\s*\{")
+    prestep_clears = []
+    if check("PreStepExecutor::operator()(CoreTrackView const&) found", pre_body is not None):
+        pre_nodebug = re.sub(r"#if\s+CELERITAS_DEBUG.*?#endif", "", pre_body, flags=re.S)
+        inactive_guard = re.compile(r"^if \(sim\.status\(\) == TrackStatus::inactive\)$")
+        for stmt, fld_name in ((r"step\.reset_energy_deposition\(\)\s*;", "energy_deposition"),
+                               (r"step\.secondaries\(\s*\{\s*\}\s*\)\s*;", "secondaries"),
+                               (r"step\.element\(\s*\{\s*\}\s*\)\s*;", "element")):
+            ms = [m for m in re.finditer(stmt, pre_nodebug)]
+            if not check("PreStepExecutor clears physics.state.%s exactly once outside the debug block" % fld_name, len(ms) == 1):
+                continue
+            pos = ms[0].start()
+            ctxs = [h for h in control_context(pre_nodebug, pos) if h]
+            uncond = check("PreStepExecutor: the clearing of %s is unconditional (enclosing blocks: %r)" % (fld_name, ctxs), not ctxs)
+            rets = returns_before(pre_nodebug, pos)
+            bad = [r_ for r_ in rets if not (len([h for h in r_ if h]) == 1 and inactive_guard.match([h for h in r_ if h][0]))]
+            early = check("PreStepExecutor: the only `return` before the clearing of %s is the one for INACTIVE slots "
+                          "(errored / initializing tracks are still read by tracking-cut, step gather, LocateAlive); offending guards: %r"
+                          % (fld_name, bad), not bad)
+            if uncond and early:
+                prestep_clears += writes_from("physics.state", [fld_name], "PreStepExecutor")
+        check("PreStepExecutor: `step` is the physics step view of the track (`auto step = track.make_physics_step_view();`)",
+              re.search(r"auto\s+step\s*=\s*track\.make_physics_step_view\(\)\s*;", pre_nodebug))
+    psv = read(repo, "celeritas/phys/PhysicsStepView.hh")
+    for meth, fld_name, pat in (("reset_energy_deposition", "energy_deposition", r"this->state\(\)\.energy_deposition\s*=\s*0\s*;"),
+                                ("secondaries", "secondaries", r"this->state\(\)\.secondaries\s*=\s*\w+\s*;"),
+                                ("element", "element", r"this->state\(\)\.element\s*=\s*\w+\s*;")):
+        b = None
+        for m in re.finditer(r"PhysicsStepView::%s\s*\(([^)]*)\)\s*\{" % meth, psv):
+            if meth == "reset_energy_deposition" or m.group(1).strip():
+                b = block_after(psv, m.end() - 1)
+                break
+        check("PhysicsStepView::%s writes state().%s" % (meth, fld_name), b is not None and re.search(pat, b))
+    tc = read(repo, "celeritas/phys/detail/TrackingCutExecutor.hh")
+    check("TrackingCutExecutor ADDS to the step's energy deposition (`deposit_energy`), i.e. reads the pre-step value",
+          re.search(r"make_physics_step_view\(\)\.deposit_energy\(", tc))
+    ctv = read(repo, "celeritas/global/CoreTrackView.hh")
+    ae = method_body(ctv, r"CoreTrackView::apply_errored\(\)\s*\{")
+    check("apply_errored routes the track to the tracking cut (status errored, post-step action = tracking_cut_action)",
+          ae is not None and re.search(r"sim\.status\(TrackStatus::errored\)", ae)
+          and re.search(r"sim\.post_step_action\(this->tracking_cut_action\(\)\)", ae))
+
     # ---- explicit TrackSlotId constructions (anything that addresses a slot other than
     #      through CoreTrackView's thread->slot map) -------------------------------
     slot_ctor_files = []
@@ -417,6 +490,7 @@ def generate(repo=REPO):
 
     return {
         "slot_ctor_files": slot_ctor_files,
+        "prestep_clears": dedup(prestep_clears),
         "all_state_fields": fields,
         "init_primary_writes": dedup(init_primary),
         "init_secondary_writes": dedup(init_secondary),
@@ -455,6 +529,8 @@ def emit(data, repo=REPO):
     out.append(coq_pairs("inplace_writes", data["inplace_writes"], "ProcessSecondariesExecutor in-place re-initialisation (same slot as the parent)"))
     out.append(coq_pairs("reseed_writes", data["reseed_writes"], "Stepper::reseed, for EVERY slot / every event counter"))
     out.append(coq_pairs("state_reset_writes", data["state_reset_writes"], "CoreState::reset"))
+    out.append(coq_pairs("prestep_clears", data["prestep_clears"],
+                         "cleared by PreStepExecutor on every path of a non-inactive track (also errored ones)"))
     out.append(coq_pairs("slot_ctor_files", data["slot_ctor_files"],
                          "(file, number of explicit TrackSlotId{...} constructions) outside CoreTrackView's thread->slot map"))
     body = ";\n   ".join("(%s, %s)" % (coq_str(t), "true" if ok else "false") for t, ok in data["shape_checks"])
